@@ -421,6 +421,14 @@ def std_call(interp, name, args, kwargs, node=None):
         return list(lazy_iter(args[0])) if args else []
     if name == "collections.OrderedDict":
         return dict(*args, **kwargs)
+    if name == "ast.literal_eval":
+        import ast as _ast
+        if not isinstance(args[0], str):
+            raise Undecided("ast.literal_eval of a non-constant")
+        try:
+            return _ast.literal_eval(args[0])
+        except (ValueError, SyntaxError) as e:
+            raise PyRaise(f"{type(e).__name__}: {e}")
     if name == "typing.cast":
         return args[1]
     return NotImplemented
